@@ -539,6 +539,11 @@ class Verifier:
                 v = self.module_name(m2, attr, I)
                 if v is not None:
                     return v
+                if rel.endswith("__init__.py"):
+                    # `from . import submodule` / `from pkg import submodule`
+                    sub = os.path.join(os.path.dirname(rel), attr + ".py")
+                    if os.path.exists(os.path.join(self.repo, sub)):
+                        return VModule(name, frontend.load_module(sub, self.repo))
                 return None
             modname, attr, _ = mod.imports[name]
             return self.external(modname, attr)
@@ -581,6 +586,9 @@ class Verifier:
         if q is None:
             return None
         c = self.contracts.get(q)
+        if self.cur is not None and q in self.cur.funcs:
+            # per-contract override: this contract names the callee contract it relies on (`funcs={key: Contract}`)
+            c = self.cur.funcs[q]
         if c is None or c.inline:
             return None
         if I.spec and c.pure_result is None:
